@@ -16,7 +16,7 @@ def unsafe(s):
 
 class P(ServeProp):
     ID = "C17"
-    THEOREMS = ["C17_refuted", "C17_late_codes_fail", "C17_early_codes_ok", "C17_percent_is_eighth", "C17_tables_shape", "C17_roundtrip_partial", "C17_parse_query_spec"]
+    THEOREMS = ["C17_refuted", "C17_late_codes_fail", "C17_early_codes_ok", "C17_percent_is_eighth", "C17_tables_shape", "C17_roundtrip_partial", "C17_parse_query_spec", "C17_percent_free_round_trip", "C17_encoder_is_characterwise"]
     COQ_TARGETS = ["theories/Props/C17.vo", "theories/Extract.vo"]
     N_QUICK = 3000
     N_THOROUGH = 80000
